@@ -551,6 +551,9 @@ class Transport(threading.Thread, ClosingContextManager):
         self.clear_to_send = threading.Event()
         self.clear_to_send_lock = threading.Lock()
         self.clear_to_send_timeout = 30.0
+        # replies generated by the transport thread itself while a key
+        # exchange is in progress; sent once the new keys are in place
+        self._kex_deferred = []
         self.log_name = "paramiko.transport"
         self.logger = util.get_logger(self.log_name)
         self.packetizer.set_log(self.logger)
@@ -1962,6 +1965,19 @@ class Transport(threading.Thread, ClosingContextManager):
         send a message, but block if we're in key negotiation.  this is used
         for user-initiated requests.
         """
+        if threading.current_thread() is self:
+            # We are the transport thread, replying to peer traffic (e.g. a
+            # channel request that was already in flight when a key exchange
+            # began). Only this thread can finish the exchange, so it must
+            # not wait for it; hold the reply back until NEWKEYS instead.
+            if not self.active:
+                return
+            with self.clear_to_send_lock:
+                if self.clear_to_send.is_set():
+                    self._send_message(data)
+                else:
+                    self._kex_deferred.append(data)
+            return
         start = time.time()
         while True:
             self.clear_to_send.wait(0.1)
@@ -2225,7 +2241,7 @@ class Transport(threading.Thread, ClosingContextManager):
                     if ptype in self._handler_table:
                         error_msg = self._ensure_authed(ptype, m)
                         if error_msg:
-                            self._send_message(error_msg)
+                            self._send_user_message(error_msg)
                         else:
                             self._handler_table[ptype](m)
                     elif ptype in self._channel_handler_table:
@@ -2913,6 +2929,9 @@ class Transport(threading.Thread, ClosingContextManager):
         self.clear_to_send_lock.acquire()
         try:
             self.clear_to_send.set()
+            deferred, self._kex_deferred = self._kex_deferred, []
+            for msg in deferred:
+                self._send_message(msg)
         finally:
             self.clear_to_send_lock.release()
         return
@@ -2956,7 +2975,7 @@ class Transport(threading.Thread, ClosingContextManager):
                 msg.add(*extra)
             else:
                 msg.add_byte(cMSG_REQUEST_FAILURE)
-            self._send_message(msg)
+            self._send_user_message(msg)
 
     def _parse_request_success(self, m):
         self._log(DEBUG, "Global request successful.")
@@ -3103,7 +3122,7 @@ class Transport(threading.Thread, ClosingContextManager):
             msg.add_int(reason)
             msg.add_string("")
             msg.add_string("en")
-            self._send_message(msg)
+            self._send_user_message(msg)
             return
 
         chan = Channel(my_chanid)
@@ -3126,7 +3145,7 @@ class Transport(threading.Thread, ClosingContextManager):
         m.add_int(my_chanid)
         m.add_int(self.default_window_size)
         m.add_int(self.default_max_packet_size)
-        self._send_message(m)
+        self._send_user_message(m)
         self._log(
             DEBUG, "Secsh channel {:d} ({}) opened.".format(my_chanid, kind)
         )
